@@ -117,7 +117,9 @@ func zzLoop(pBound, nShapes, maxC, maxPR int) {
 	producers := 1 + nd.Choose("producers", maxPR)
 	rejectDir := !zzPlain && nd.Choose("reject-dir", 2) == 1 && len(dirs) > 0
 	failFile := !zzPlain && nd.Bool("fail-file")
-	failDir := !zzPlain && len(dirs) > 0 && !rejectDir && nd.Bool("fail-dir")
+	// a files-only walk: no directory callback at all (filters still apply)
+	filesOnly := !zzPlain && maxC == 1 && len(dirs) > 0 && nd.Bool("files-only")
+	failDir := !zzPlain && len(dirs) > 0 && !rejectDir && !filesOnly && nd.Bool("fail-dir")
 	cbFailed := false // some callback returned an error
 	// a listing error in the sub-directory (if there is one and it is entered)
 	failList := !zzPlain && len(dirs) > 0 && !rejectDir && nd.Bool("fail-listing")
@@ -167,6 +169,9 @@ func zzLoop(pBound, nShapes, maxC, maxPR int) {
 	if rejectDir {
 		data.DirFilter = func(_ filesystem.Filespace, p string) bool { return false }
 	}
+	if filesOnly {
+		data.OnDir = nil
+	}
 	loop := NewLoop(data, nil)
 	loop.Run("")
 	loop.Wait()
@@ -176,6 +181,9 @@ func zzLoop(pBound, nShapes, maxC, maxPR int) {
 	errs := loop.Errors()
 	// expected selection
 	wantFiles, wantDirs := files, dirs
+	if filesOnly {
+		wantDirs = nil
+	}
 	if rejectDir {
 		wantDirs = nil
 		wantFiles = nil
